@@ -17,6 +17,7 @@ type BitsCase struct {
 }
 
 func (c *BitsCase) Kind() string { return "bits" }
+func (c *BitsCase) Spread() bool { return true }
 
 func segSrc(mode int, noise []string, seg []PStmt) string {
 	var b strings.Builder
